@@ -165,6 +165,11 @@ pub mod stubs {
     lanewise2!(mm_cmpgt_ps, |a, b| mk(a > b));
     lanewise2!(mm_cmpge_ps, |a, b| mk(a >= b));
     lanewise2!(mm_cmpunord_ps, |a, b| mk(a != a || b != b));
+    lanewise2!(mm_cmpord_ps, |a, b| mk(a == a && b == b));
+    lanewise2!(mm_cmpnlt_ps, |a, b| mk(!(a < b)));
+    lanewise2!(mm_cmpnle_ps, |a, b| mk(!(a <= b)));
+    lanewise2!(mm_cmpngt_ps, |a, b| mk(!(a > b)));
+    lanewise2!(mm_cmpnge_ps, |a, b| mk(!(a >= b)));
     pub unsafe fn mm_add_ss(a: __m128, b: __m128) -> __m128 {
         let (a, b) = (f(a), f(b));
         m([a[0] + b[0], a[1], a[2], a[3]])
